@@ -4,6 +4,7 @@ mod rng;
 mod tys;
 mod fam_locals;
 mod fam_iter;
+mod fam_custom;
 
 use ctx::Ctx;
 
@@ -38,6 +39,7 @@ fn main() {
         "locals" => fam_locals::run(&mut ctx),
         "iter" => fam_iter::run_iter(&mut ctx),
         "compiter" => fam_iter::run_compiter(&mut ctx),
+        "custom" => fam_custom::run(&mut ctx),
         x => {
             eprintln!("unknown family {x}");
             std::process::exit(2);
